@@ -12,6 +12,14 @@ import (
 
 type Process struct{ Pid int }
 
+// Kill sends SIGKILL to this one process (not to its group).
+func (p *Process) Kill() error {
+	if simos.Cur == nil {
+		return errors.New("simexec without simulated OS")
+	}
+	return simos.Cur.Kill(p.Pid)
+}
+
 // Cmd mirrors the fields and methods of exec.Cmd that fzf uses.
 type Cmd struct {
 	Path        string
